@@ -1564,6 +1564,7 @@ func (f *File) AddRetract(vi VersionInterval, rationale string) error {
 
 	r := &Retract{
 		VersionInterval: vi,
+		Rationale:       rationale,
 	}
 	if vi.Low == vi.High {
 		r.Syntax = f.Syntax.addLine(nil, "retract", AutoQuote(vi.Low))
@@ -1576,6 +1577,7 @@ func (f *File) AddRetract(vi VersionInterval, rationale string) error {
 			r.Syntax.Comment().Before = append(r.Syntax.Comment().Before, com)
 		}
 	}
+	f.Retract = append(f.Retract, r)
 	return nil
 }
 
